@@ -20,7 +20,7 @@ META = {
     "assumptions": ["identity on the structured event array is the oracle (exact)", "region equality by behaviour: same cell index for probe points"],
     "deciding": ["roundtrip:ascii", "roundtrip:dict", "roundtrip:json", "roundtrip:dataframe"],
 }
-META["added"] = 'Added: with_datetime DataFrame route on non-chronological catalogs, catalog ids 0 and 1 always generated, exponent-notation field values (|v| < 1e-4, subnormals) also in first position, latitude-major regions. the same file path re-used by every case.'
+META["added"] = 'Added: with_datetime DataFrame route on non-chronological catalogs, catalog ids 0 and 1 always generated, exponent-notation field values (|v| < 1e-4, subnormals) also in first position, latitude-major regions. the same file path re-used by every case. negative catalog ids.'
 MANIFEST = {
     "technique": "boundary recorder on the eight persistence functions with exact identity oracle on the structured event array; region equality by probe behaviour; generated hostile ids / millisecond phases / extreme coordinates",
     "level_text": "Each generated catalog is pushed through the four persistence routes with the real functions; the reloaded event array must be bit-identical (ids, integer ms origin times, doubles), integer catalog ids must survive every route and name/region the dict/JSON routes (region compared by the cell index of boundary-adjacent probe points).",
@@ -224,7 +224,7 @@ def run(ctx):
             dh = float(lat_case["dh"])
             ev = [(e[0], e[1], float(lat_case["ay"]) + (cells[i % len(cells)][1] + 0.5) * dh, float(lat_case["ax"]) + (cells[i % len(cells)][0] + 0.5) * dh, e[4], e[5])
                   for i, e in enumerate(ev)]
-        ex_catalog(ctx, ev, catalog_id=[None, 0, 1, int(r.integers(0, 10000))][j % 4], name=None if j % 3 == 0 else "cat %d" % j,
+        ex_catalog(ctx, ev, catalog_id=[None, 0, 1, int(r.integers(0, 10000)), -1, None, -3, int(-r.integers(2, 2 ** 40))][j % 8], name=None if j % 3 == 0 else "cat %d" % j,
                    lat_case=lat_case, header=bool(j % 2), seed=j)
         if j % 200 == 0:
             ctx.sample({"n_events": nev, "events_head": ev[:2], "with_region": lat_case is not None, "header": bool(j % 2)})
